@@ -311,7 +311,7 @@ class ShiftCmp(Base):
 TBL = [3, 141, 59, 26]
 BTBL = [Bits8(0x11), Bits8(0xEE), Bits8(0x80), Bits8(0x7F)]
 KP = Pst(9, 6)
-STRUCT_BEHAVIORAL = ("StructBuild", "StructReg", "LhsFields", "FreeScalars", "ChildStructPorts", "FieldCmpExt", "IfcStructMsg", "SextArrayField", "TmpStructField", "FieldNamedLikeMethod")     # MemberConsts has struct CONSTANTS only: checked strictly     # designs whose blocks touch struct-typed signals / constants (signature class of the Yosys struct findings)
+STRUCT_BEHAVIORAL = ("StructBuild", "StructReg", "LhsFields", "FreeScalars", "ChildStructPorts", "FieldCmpExt", "IfcStructMsg", "SextArrayField", "TmpStructField", "FieldNamedLikeMethod", "ConstStructInnerField")     # MemberConsts has struct CONSTANTS only: checked strictly     # designs whose blocks touch struct-typed signals / constants (signature class of the Yosys struct findings)
 K5 = 5
 KB = Bits8(0xC3)
 
@@ -2543,6 +2543,23 @@ class SecondNameOfPart(Base):
     def up_snp():
       s.o @= s.lo
       s.p @= s.fy
+
+
+@design(lambda st, a, b, sel, en, reset: (None, {"o": 0x56, "p": 7 & 3, "q": 6}))
+class ConstStructInnerField(Base):
+  """a struct-typed field of a bitstruct constant of construct() (the type of the constant occurs nowhere else in the design)"""
+  def construct(s):
+    s.ports()
+    s.o = OutPort(Pst)
+    s.p = OutPort(Bits2)
+    s.q = OutPort(Bits4)
+    KK = Qst(Pst(5, 6), 3)
+
+    @update
+    def up_csif():
+      s.o @= KK.p
+      s.p @= KK.z
+      s.q @= KK.p.y
 
 
 def sequences():
